@@ -165,8 +165,104 @@ def gen_cases(tier, rng):
             yield c
 
 
+# ------------------------------------------------------------------------------------------------ run-time contracts of lines 9 and 10
+def run_line_case(c):
+    """Contracts of trso_line9 / trso_line10 evaluated on a real call (bounded):
+       line 10 (district C' of G, current distribution = the observational joint of G): the new query carries G[C'], the
+       interventions X & C', and an expression that equals Q[C'] = P(C' | do(V - C')) for every assignment;
+       line 9  (the same inputs, outcomes Y within C'): the returned expression equals sum_{C' - Y} Q[C']."""
+    dsl = concrete.y0mod("y0.dsl")
+    tr = concrete.y0mod("y0.algorithm.transport")
+    V = dsl.Variable
+    vs, d, u = c["nodes"], c["directed"], c["undirected"]
+    g = oracles.build(vs, d, u, random.Random(c["seed"]))
+    dist = set(c["district"])
+    X = set(c["X"])
+    joint = dsl.PP[dsl.TARGET_DOMAIN](*[V(v) for v in sorted(vs)])
+
+    def query(Y):
+        return tr.TRSOQuery(target_interventions={V(x) for x in X}, target_outcomes={V(y) for y in Y}, expression=joint,
+                            active_interventions=set(), domain=dsl.TARGET_DOMAIN, domains={dsl.TARGET_DOMAIN},
+                            graphs={dsl.TARGET_DOMAIN: g}, surrogate_interventions={})
+    target = scm.SCM(vs, d, u, c["seed"])
+    models = {"target": target}
+    others = [v for v in vs if v not in dist]
+
+    def q_of(env, keep):
+        return target.prob({v: env[v] for v in keep}, {o: env[o] for o in others})
+    if c["line"] == 10:
+        q0 = query(c["Y"])
+        before = (set(q0.target_interventions), set(q0.target_outcomes), q0.graphs[dsl.TARGET_DOMAIN].copy())
+        try:
+            nq = tr.trso_line10(q0, {V(v) for v in dist}, {})
+        except Exception as e:
+            return f"trso_line10 raised {type(e).__name__}: {e}"
+        if (set(q0.target_interventions), set(q0.target_outcomes)) != before[:2] or q0.graphs[dsl.TARGET_DOMAIN] != before[2] or q0.expression != joint:
+            return "trso_line10 modified its input query"
+        want_g = g.subgraph({V(v) for v in dist})
+        if nq.graphs[dsl.TARGET_DOMAIN] != want_g:
+            return f"trso_line10: new graph is not G[C'] for C' = {sorted(dist)}"
+        if nq.target_interventions != {V(x) for x in X & dist}:
+            return f"trso_line10: new interventions {sorted(map(str, nq.target_interventions))}, expected X & C' = {sorted(X & dist)}"
+        if nq.target_outcomes != {V(y) for y in c["Y"]}:
+            return "trso_line10 changed the outcomes"
+        for env in xo.envs(target.order):
+            try:
+                got = evaluate(nq.expression, env, models)
+            except xo.Undefined:
+                continue
+            except KeyError as ex:
+                return f"trso_line10: expression {nq.expression} mentions {ex}"
+            want = q_of(env, dist)
+            if got != want:
+                return f"trso_line10: new distribution {nq.expression} evaluates to {got} at {env}; Q[C'] = P(C'|do(V-C')) is {want}"
+        return None
+    try:
+        e9 = tr.trso_line9(query(c["Y"]), {V(v) for v in dist})
+    except Exception as e:
+        return f"trso_line9 raised {type(e).__name__}: {e}"
+    summed = sorted(dist - set(c["Y"]))
+    for env in xo.envs(target.order):
+        try:
+            got = evaluate(e9, env, models)
+        except xo.Undefined:
+            continue
+        except KeyError as ex:
+            return f"trso_line9: expression {e9} mentions {ex}"
+        want = sum(q_of({**env, **dict(zip(summed, vals))}, dist) for vals in itt.product(range(2), repeat=len(summed)))
+        if got != want:
+            return f"trso_line9: {e9} evaluates to {got} at {env}; sum over C'-Y of Q[C'] is {want}"
+    return None
+
+
+def gen_line_cases(tier, rng):
+    graphs = []
+    for n in (2, 3):
+        graphs += list(oracles.all_admgs(n))
+    four = [(vs, d, u) for vs, d, u in oracles.all_admgs(4) if len(u) <= 2]
+    graphs += four if tier == "thorough" else rng.sample(four, 1400)
+    for _ in range(250 if tier == "quick" else 3000):
+        vs, d, u = oracles.random_admg(rng, 5, p_d=rng.choice([0.3, 0.5]), p_u=rng.choice([0.2, 0.35]))
+        graphs.append((vs, d, u[:3]))
+    for vs, d, u in graphs:
+        ug = nx.Graph()
+        ug.add_nodes_from(vs)
+        ug.add_edges_from(u)
+        for comp in nx.connected_components(ug):
+            comp = sorted(comp)
+            if len(comp) == len(vs) and len(vs) > 3:
+                continue
+            ys = rng.sample(comp, rng.randint(1, len(comp)))
+            xs = [v for v in vs if v not in ys and rng.random() < 0.6]
+            for line in (9, 10):
+                yield {"line": line, "nodes": vs, "directed": d, "undirected": u, "district": comp, "Y": sorted(ys), "X": xs,
+                       "seed": rng.randrange(1 << 30)}
+
+
 def _eval(c):
     try:
+        if "line" in c:
+            return c, run_line_case(c), None
         return c, run_case(c), None
     except Exception as e:
         return c, None, f"{type(e).__name__}: {e}"
@@ -176,8 +272,26 @@ def extra(rep, repo, registry, known_open):
     t0 = time.time()
     rng = random.Random(repr((rep.seed, "C05")))
     cases = list(gen_cases(rep.tier, rng))
+    line_cases = list(gen_line_cases(rep.tier, random.Random(repr((rep.seed, "C05-lines")))))
     concrete.y0mod("y0.dsl")
     fails, errs = [], []
+    lfails = []
+    with mp.get_context("fork").Pool(16) as pool:
+        for c, why, err in pool.imap_unordered(_eval, line_cases, chunksize=16):
+            if err:
+                errs.append(err)
+            elif why:
+                lfails.append((c, why))
+    rep.extra_parts.append({"name": "trso-line9-line10-runtime-contracts", "kind": "bounded", "decides": True, "evaluations": len(line_cases),
+                            "scope": "trso_line9 / trso_line10 called directly on every district of every ADMG on 2-3 nodes, of 4-node DAGs with <= 2 bidirected "
+                                     "edges (1,400 sampled; all 11,946 in the thorough tier) and of sampled 5-node ADMGs: new graph, interventions, caller state, and "
+                                     "the returned distribution against Q[C'] = P(C'|do(V-C')) (resp. its marginal) on an exact SCM, every assignment",
+                            "failures": len(lfails), "wall_s": round(time.time() - t0, 1)})
+    if lfails:
+        c, why = min(lfails, key=lambda f: (len(f[0]["nodes"]), len(f[0]["directed"]) + len(f[0]["undirected"])))
+        oid = f"y0.algorithm.transport.trso_line{c['line']}/bounded.contract"
+        path = pipeline.write_replay("C05", f"bounded.line{c['line']}", {"property": "C05", "obligation": oid, "case": c, "why": why})
+        rep.violations.append((oid, path, ""))
     with mp.get_context("fork").Pool(16) as pool:
         for c, why, err in pool.imap_unordered(_eval, cases, chunksize=8):
             if err:
@@ -198,7 +312,7 @@ def extra(rep, repo, registry, known_open):
 
 
 def replay(payload, path):
-    why = run_case(payload["case"])
+    why = run_line_case(payload["case"]) if "line" in payload["case"] else run_case(payload["case"])
     print(json.dumps({"case": payload["case"], "now": why}, indent=1))
     if why:
         print(f"VIOLATION property=C05 replay={path}")
